@@ -36,6 +36,8 @@ ANCHORS = ["QueryBuilder.get_sql", "CreateQueryBuilder.get_sql", "CreateQueryBui
            "MySQLQueryBuilder.get_sql", "PostgreSQLQueryBuilder.get_sql", "SQLLiteQueryBuilder.get_sql",
            "MSSQLQueryBuilder.get_sql", "OracleQueryBuilder.get_sql"]
 WORKERS = {"quick": 16, "thorough": 16}
+# cases the check sets aside instead of judging, as a share of all cases (more than that makes a run inconclusive)
+CEILING_RATIOS = {"renders_rejected": 0.01, "call_sequences_rejected": 0.06, "sqlite_semantic_errors_not_judged": 0.02}
 
 
 def R():
